@@ -194,7 +194,11 @@ func genField(t *rapid.T, provs []pop.ProvSpec) pop.FieldSpec {
 	if rapid.IntRange(0, 4).Draw(t, "funcpoint") == 0 {
 		return pop.FieldSpec{Type: typ, Tag: fmt.Sprintf(`func:"Comp,returns=*%s"`, args)}
 	}
-	return pop.FieldSpec{Type: typ, Tag: fmt.Sprintf(`wire:"%s"`, args)}
+	val := ""
+	if rapid.IntRange(0, 3).Draw(t, "absentplaceholder") == 0 {
+		val = "${c10.absent.name}" // resolves to nothing: the point is wired by type
+	}
+	return pop.FieldSpec{Type: typ, Tag: fmt.Sprintf(`wire:"%s%s"`, val, args)}
 }
 
 func TestPopulations(t *testing.T) {
@@ -209,8 +213,9 @@ func TestPopulations(t *testing.T) {
 			for i := 0; i < nf; i++ {
 				c.Fields = append(c.Fields, genField(t, s.Provs))
 			}
-			if rapid.Bool().Draw(t, "cfgfield") {
-				c.Fields = append(c.Fields, pop.FieldSpec{Type: "string", Tag: `value:"lit"`})
+			for nd := rapid.SampledFrom([]int{0, 1, 1, 2}).Draw(t, "ndecoys"); nd > 0; nd-- {
+				pos := rapid.IntRange(0, len(c.Fields)).Draw(t, "decoypos")
+				c.Fields = append(c.Fields[:pos], append([]pop.FieldSpec{pop.DrawDecoyField(t)}, c.Fields[pos:]...)...)
 			}
 			s.Cons = append(s.Cons, c)
 		}
